@@ -103,10 +103,10 @@ Print Assumptions C12_integer_is_zero_places.
 Theorem C12_rational_exact : forall dp (a b : Q),
   (add (Rational dp) a b == a + b)%Q /\ (sub (Rational dp) a b == a - b)%Q /\
   (mulv (Rational dp) a b == a * b)%Q /\
-  (forall r, kmul (Rational dp) a b r == a * b)%Q /\
+  (forall up, kmul (Rational dp) a b up == a * b)%Q /\
   (~ b == 0 -> exists q, divv (Rational dp) a b = Ok q /\ q == a / b)%Q /\
-  (~ b == 0 -> forall r, exists q, kdiv (Rational dp) a b r = Ok q /\ q == a / b)%Q /\
-  (forall c r, ~ c == 0 -> exists q, kmuldiv (Rational dp) a b c r = Ok q /\ q == a * b / c)%Q /\
+  (~ b == 0 -> forall up, exists q, kdiv (Rational dp) a b up = Ok q /\ q == a / b)%Q /\
+  (forall c up, ~ c == 0 -> exists q, kmuldiv (Rational dp) a b c up = Ok q /\ q == a * b / c)%Q /\
   (ltv (Rational dp) a b = true <-> a < b)%Q /\ (eqv (Rational dp) a b = true <-> a == b)%Q.
 Proof. exact c12_rational_exact. Qed.
 Print Assumptions C12_rational_exact.
